@@ -272,10 +272,18 @@ def fft_noise_interpolates_over_the_dft_grid_with_the_dft_period():
         seen.append((xp, fp, period))
         return 0 * x
     use_lib_stub("np.interp", interp)
+    asked = []
+
+    def irfft(x, n=None):
+        asked.append((len(x), n))
+        return symarr("irfft_output", n if n is not None else 2 * (len(x) - 1))
+    use_lib_stub("scipy.fft.irfft", irfft)
     ts = symarr("ts")
     assume(len(ts) >= 1)
     sig._functions[0](ts)
     assume(len(seen) == 1)
+    prove("inverse-fft-is-asked-for-exactly-N-samples-from-N//2+1-bins",
+          And(len(asked) == 1, asked[0][1] == sig._n_all_freqs, asked[0][0] == sig._n_all_freqs // 2 + 1))
     xp, fp, period = seen[0]
     N = sig._n_all_freqs
     dt = sig._dt
